@@ -515,8 +515,9 @@ class Oracle:
         res = next((l for l in lines if l.startswith('R ')), None)
         asserts = [l for l in lines if l.startswith('@')]
         for a in asserts:
-            if a.startswith(('@addr=', '@stable=')) and not a.endswith('=1'):
+            if a.startswith(('@addr=', '@stable=', '@burst=')) and not a.endswith('=1'):
                 which = 'a member is no longer found at its address / index' if a.startswith('@addr') else \
+                    'an identifier created during a growth burst no longer spells what it was made from' if a.startswith('@burst') else \
                     'an observation changed other than by growth at the end / a link being set'
                 detail = [l for l in lines if l.startswith('#D ')][:4]
                 return '%s after `%s`: %s %s' % (a, op, which, ' ; '.join(d[:200] for d in detail))
